@@ -22,7 +22,8 @@
      AResetWake    relock after the sleep; `if (!m_thread) return;` (a stop that wakes up and finds
                    no thread returns without touching anything).
      AAppDie       ~QCoreApplication (self = nullptr).
-     AMove         moveToOwnThread when no thread exists: new thread, new worker, start.
+     AMove         moveToOwnThread: when no thread exists new thread, new worker, start; when one
+                   exists (a second configure(async)) it returns at once and changes nothing.
    Process exit is AAppDie (if an application object ever existed) followed by AResetStart from the
    destructor of the function-local static Logger. *)
 From Coq Require Import List Arith Bool.
@@ -120,7 +121,8 @@ Definition step (rc : bool) (s : st) (a : act) : option st :=
   | AAppDie =>
       Some (mk_st false (worker s) (queue s) (inflight s) (pending s) (mtx s) (stops s) (log s) (accepted s))
   | AMove =>              (* moveToOwnThread: lock; if (m_thread) return; new thread and worker *)
-      if mtx s || worker s then None
+      if mtx s then None
+      else if worker s then Some s   (* already asynchronous: `if (m_thread) return *this;` — nothing is touched *)
       else Some (mk_st (app s) true (queue s) (inflight s) (pending s) false (map undone (stops s)) (log s) (accepted s))
   end.
 
